@@ -45,6 +45,7 @@ fn holder_doc() -> CoreDocument {
     "id": HOLDER,
     "verificationMethod": [method_json(&format!("{}#k1", HOLDER), HOLDER, &k1()), method_json(&format!("{}#kf", FOREIGN), FOREIGN, &kf())],
     "authentication": [format!("{}#k1", HOLDER)],
+    "capabilityInvocation": [format!("{}#k1", HOLDER)],
     "assertionMethod": [method_json(&format!("{}#k2", HOLDER), HOLDER, &k2())],
   });
   serde_json::from_value(j).expect("harness holder document")
@@ -119,7 +120,7 @@ impl Plan {
   fn in_scope(m: u8, scope: u8) -> bool {
     match (m, scope) {
       (_, 0) => true,
-      (0, 1) | (0, 2) => true,
+      (0, 1) | (0, 2) | (0, 5) => true, // #k1: general purpose, referenced from authentication and capabilityInvocation
       (1, 3) => true,
       (2, 1) => true,
       _ => false,
@@ -131,6 +132,8 @@ impl Plan {
       2 => Some(MethodScope::VerificationRelationship(MethodRelationship::Authentication)),
       3 => Some(MethodScope::VerificationRelationship(MethodRelationship::AssertionMethod)),
       4 => Some(MethodScope::VerificationRelationship(MethodRelationship::KeyAgreement)),
+      5 => Some(MethodScope::VerificationRelationship(MethodRelationship::CapabilityInvocation)),
+      6 => Some(MethodScope::VerificationRelationship(MethodRelationship::CapabilityDelegation)),
       _ => None,
     }
   }
@@ -227,6 +230,7 @@ fn build(rng: &mut Rng, p: &Plan, other: u8) -> Built {
     2 => "did:example:someone-else".to_string(),
     3 => "https://holder.example.com/me".to_string(),
     4 => format!("{}/path", HOLDER),
+    5 => "did:example:HOLDER".to_string(), // differs from the document id in letter case only: another DID
     _ => HOLDER.to_string(),
   };
   let jti = "https://example.edu/presentations/3732";
@@ -389,10 +393,28 @@ fn build(rng: &mut Rng, p: &Plan, other: u8) -> Built {
     4 => vo = vo.method_id(DIDUrl::parse(format!("{}#kf", HOLDER)).unwrap()),
     _ => {}
   }
-  let options = JwtPresentationValidationOptions::new()
+  let mut options = JwtPresentationValidationOptions::new()
     .presentation_verifier_options(vo)
     .earliest_expiry_date(Timestamp::from_unix(BOUND_EXP).unwrap())
     .latest_issuance_date(Timestamp::from_unix(BOUND_ISS).unwrap());
+  // A quarter of the scenarios hand the options over as the documented camelCase JSON (the form the bindings use);
+  // the member names are written out by the harness.
+  if rng.chance(1, 4) {
+    let mut v = Map::new();
+    if let Some(n) = &options.presentation_verifier_options.nonce {
+      v.insert("nonce".into(), json!(n));
+    }
+    if let Some(sc) = options.presentation_verifier_options.method_scope {
+      v.insert("methodScope".into(), serde_json::to_value(sc).unwrap());
+    }
+    if let Some(mid) = &options.presentation_verifier_options.method_id {
+      v.insert("methodId".into(), json!(mid.to_string()));
+    }
+    let j = json!({"presentationVerifierOptions": Value::Object(v), "earliestExpiryDate": credgen::rfc3339(BOUND_EXP), "latestIssuanceDate": credgen::rfc3339(BOUND_ISS)});
+    if let Ok(parsed) = serde_json::from_value::<JwtPresentationValidationOptions>(j) {
+      options = parsed;
+    }
+  }
   Built { token, vp_full: Value::Object(full), options, custom, header, exp, issuance, aud }
 }
 
@@ -411,12 +433,12 @@ fn mutate_one(rng: &mut Rng, p: &mut Plan, which: u64) {
         p.method = 2;
       }
     }
-    3 => p.scope = 1 + rng.below(4) as u8,
+    3 => p.scope = 1 + rng.below(6) as u8,
     4 => {
       p.nonce_hdr = rng.below(3) as u8;
       p.nonce_opt = (p.nonce_hdr + 1 + rng.below(2) as u8) % 3;
     }
-    5 => p.iss = 1 + rng.below(4) as u8,
+    5 => p.iss = 1 + rng.below(5) as u8,
     6 => p.exp = Some(*rng.pick(&[-1i64, -2, -1_000_000])),
     7 => {
       if p.issuance == 0 {
@@ -450,7 +472,7 @@ fn mutate_one(rng: &mut Rng, p: &mut Plan, which: u64) {
     12 => {
       // a scope that contains the method (legal variation)
       p.scope = match p.method {
-        0 => 1 + rng.below(2) as u8,
+        0 => *rng.pick(&[1u8, 2, 5]),
         1 => 3,
         _ => 1,
       };
